@@ -458,6 +458,9 @@ def run_C06(tier, rng, chk):
     st2 = hammer_scripts(rng, tier, "c06_toggle", None, single_flag=False, n_scripts=(40, 250))
     out = chk.run_stream(st2, prop="C06")
     res.append(fam("hammer with A/B flag toggles", st2, out))
+    st3 = hammer_scripts(rng, tier, "c06_narrow", None, single_flag=False, n_scripts=(40, 250))
+    out = chk.run_stream(st3, prop="C06", variant="hn")
+    res.append(fam("hammer on the non-unicode build (special bytes with and without errors)", st3, out, variant="hn"))
     return res
 
 
@@ -468,6 +471,9 @@ def run_C07(tier, rng, chk):
     st2 = hammer_scripts(rng, tier, "c07_mixed", None, single_flag=False, n_scripts=(40, 250))
     out = chk.run_stream(st2, prop="C07")
     res.append(fam("mixed progressive settings with flag toggles", st2, out))
+    st3 = hammer_scripts(rng, tier, "c07_narrow", 1, single_flag=True, n_scripts=(30, 200))
+    out = chk.run_stream(st3, prop="C07", variant="hn")
+    res.append(fam("progressive hammer on the non-unicode build", st3, out, variant="hn"))
     return res
 
 
@@ -501,7 +507,38 @@ def run_C08(tier, rng, chk):
             L.append(P(0, *text_group(rng, kind, addr, fl, w1, w2), e))
         st.append(("c08_toggle_%d" % i, L))
     out = chk.run_stream(st, prop="C08")
-    return [fam("toggle scenarios(every eb in 0..3 from every last-flag state, empty/non-empty buffers, undecodable blocks, clears)", st, out)]
+    res = [fam("toggle scenarios(every eb in 0..3 from every last-flag state, empty/non-empty buffers, undecodable blocks, clears)", st, out)]
+    # runs of 1..8 consecutive type-2 groups that must all be ignored (flag other than the one last
+    # seen, block B errored at the same level each time), then a real switch: the guard against a
+    # flipped flag bit holds however often the suspicious flag repeats
+    rn = []
+    for i in range(scale(tier, 30, 200)):
+        L = ["0 I 0"] + ["0 R %d 1" % f for f in (8, 9, 10)]
+        L.append("0 T 1 0 %d" % rng.choice([1, 2, 2]))
+        L.append("0 T 1 1 %d" % rng.choice([0, 1, 2]))
+        fl = rng.randrange(2)
+        for _ in range(scale(tier, 8, 12)):
+            # latch fl with error-free groups filling some cells
+            for a in rng.sample(range(16), rng.randrange(1, 4)):
+                L.append(P(0, *text_group(rng, rng.choice(["2A", "2B"]), a, fl, rng.choice([0x4142, 0x6162, 0x2020]), rng.choice([0x4344, 0x6364]))))
+            ebv = rng.choice([1, 1, 2, 3, 200])
+            for _ in range(rng.randrange(1, 9)):
+                a = rng.choice([0, 1, rng.randrange(16)])
+                L.append(P(0, *text_group(rng, rng.choice(["2A", "2B"]), a, 1 - fl, rng.choice([0x5152, 0x7172]), rng.choice([0x5354, 0x7374])),
+                           (0, ebv, rng.choice([0, 0, 1]), rng.choice([0, 0, 1]))))
+            if rng.random() < 0.5:
+                L.append(gg.parse_line(rng.choice(["0A", "10A"])))
+            # a clean group with the flag last seen (nothing may have been switched), then a real switch
+            L.append(P(0, *text_group(rng, "2A", rng.randrange(16), fl, 0x4A4B, 0x4C4D)))
+            if rng.random() < 0.6:
+                fl = 1 - fl
+                L.append(P(0, *text_group(rng, "2A", rng.randrange(16), fl, 0x5A5B, 0x5C5D)))
+            if rng.random() < 0.15:
+                L.append("0 C")
+        rn.append(("c08_runs_%d" % i, L))
+    out = chk.run_stream(rn, prop="C08")
+    res.append(fam("runs(1..8 consecutive groups to be ignored at one error level, then the last flag again, then a real switch)", rn, out))
+    return res
 
 
 def ext_history(rng, tier, prefix, n_scripts, late_enable=False):
@@ -733,6 +770,13 @@ def run_C12(tier, rng, chk):
                 if (mo, da) in ((2, 28), (3, 1), (12, 31)):
                     items.append(P(0, *ct_group(mjd, 23, 59, 1)))
                     items.append(P(0, *ct_group(mjd, 0, 0, 0x21)))
+    # consecutive reports whose day numbers differ by 2^16 or 2^15 (a remembered conversion keyed by a
+    # truncated day number); the restore between sweep items does not reach state outside the object
+    for m in (65536, 65537, 70000, 88128, 100000, 125811, 131071):
+        for d in (65536, 32768):
+            items.append(P(0, *ct_group(m, 12, 0, 0)))
+            items.append(P(0, *ct_group(m - d, 12, 0, 0)))
+            items.append(P(0, *ct_group(m, 12, 0, 0)))
     for e in ((0, 1, 0, 0), (0, 0, 1, 0), (0, 0, 0, 1), (0, 0, 0, 3), (3, 0, 0, 0), (0, 2, 2, 2)):
         for ver in (0, 1):
             items.append(P(0, *ct_group(60369, 12, 30, 2, ver), e))
